@@ -36,13 +36,19 @@ def gen(seed, tier="quick"):
 
 
 def _norm_call(cf):
-    t0 = cf.t0
-    out = []
-    for e in cf.events:
-        d = {k: v for k, v in e.items() if k not in ("seq", "call")}
-        d["t"] = e["t"] - t0
-        out.append(d)
-    return out
+    """what a carried-over counter could change: which attempts were made, how each failure was
+    classified, which were retried, and how the call ended"""
+    out = [(a.k, a.kind, a.fclass) for a in cf.attempts]
+    end = cf.end
+    if end is None:
+        fin = None
+    elif end["how"] == "raise":
+        fin = ("raise", end["exc"]["type"], (end["exc"].get("ree") or {}).get("stop_reason"))
+    elif end["how"] == "outcome":
+        fin = ("outcome", end["out"]["ok"], end["out"]["stop_reason"], end["out"]["attempts"])
+    else:
+        fin = ("return",)
+    return out + [fin]
 
 
 def oracle(scn, trace):
@@ -92,6 +98,9 @@ def execute(scn):
             fresh = copy.deepcopy(scn)
             fresh["calls"] = [dict(scn["calls"][j], before=None)]
             fresh["cid_base"] = j
+            # same absolute instant as in the reused run, so timing (deadline) decisions are identical
+            fresh["pre"] = None
+            fresh["clock"] = dict(scn.get("clock") or {}, base_us=(scn.get("clock") or {}).get("base_us", 0) + calls[j].t0)
             fresh.pop("schedule", None)
             env2, _ = run_retry_scenario(fresh, chooser=chooser_for(fresh) if fresh["mode"] == "async" else None)
             c2 = split_calls(env2.trace).get(j)
